@@ -45,7 +45,8 @@ macro_rules! impl_prim_type_hash {
 
         impl MaxSizeOf for $ty {
             fn max_size_of() -> usize {
-                size_of::<$ty>()
+                // Never zero, as it is used as an alignment (see `()`).
+                size_of::<$ty>().max(1)
             }
         }
     )*};
@@ -260,7 +261,7 @@ impl<T: ?Sized> CopyType for PhantomData<T> {
 
 impl<T: ?Sized> MaxSizeOf for PhantomData<T> {
     fn max_size_of() -> usize {
-        0
+        1
     }
 }
 
